@@ -21,7 +21,9 @@ META = {
     "level_text": "Model checking of a transcription of Service.retrieve/parser over ALL blocks of a bounded "
                   "universe (<=3 blobs quick / <=4 thorough, <=3 namespaces, duplicates, share versions 0/1, "
                   "0-4 reserved compact shares, scaled threshold T=2 with widths 1..8 and the production "
-                  "threshold T=64 with lengths around the alignment steps 64|65, 128|129, widths up to 32), "
+                  "threshold T=64 with lengths around the alignment steps 64|65, 128|129, widths up to 32; plus a "
+                  "directed family of 128-wide production blocks with padding skipped in the middle of a row "
+                  "followed by two blob starts in that row, whose width/start indices come from BlobLayout), "
                   "every namespace present/absent and every commitment present/absent; conformance: the "
                   "layout half of the specification is compared share by share with the real builder for "
                   "every enumerated block, and the real service is run on every production layout (plus "
@@ -57,11 +59,19 @@ def run(ctx):
         return ctx.tlc("blob/BlobParser.tla", cfg, workers=4, timeout=900 if quick else 2400, coverage=cov,
                        java_opts=gc)
 
-    with ThreadPoolExecutor(max_workers=2) as ex:
+    with ThreadPoolExecutor(max_workers=3) as ex:
         fs = ex.submit(tlc, s_cfg, not quick)
         fp = ex.submit(tlc, p_cfg, False)
-        rs, rp = fs.result(), fp.result()
-    if not (rs.ok and rp.ok):
+        # directed family of 128-wide production blocks (padding skipped in the middle of a row, then a
+        # further blob start in the same row): only the arithmetic part of the layout, a few seconds
+        fw = ex.submit(lambda: ctx.tlc("blob/MCBlobLayoutWide.tla", "blob/MCBlobLayoutWide.cfg", workers=2, timeout=600,
+                                       java_opts=gc))
+        rs, rp, rw = fs.result(), fp.result(), fw.result()
+    if not (rs.ok and rp.ok and rw.ok):
+        return
+    wide = rw.printed.get("WIDE", [])
+    if len(wide) < 20:
+        ctx.inconclusive("vacuity: MCBlobLayoutWide emitted only %d blocks" % len(wide))
         return
     if not quick:
         ctx.require_coverage(rs, REQUIRED_ACTIONS)
@@ -76,7 +86,13 @@ def run(ctx):
     cases_path = os.path.join(ctx.work, "cases.json")
     with open(cases_path, "w") as f:
         json.dump(cases, f)
+    wide_path = os.path.join(ctx.work, "wide.json")
+    with open(wide_path, "w") as f:
+        json.dump(wide, f)
+    ctx.cover(enumerated_wide_blocks=len(wide))
     env = {"VERIF_CASES": cases_path,
+           "VERIF_WIDE_CASES": wide_path,
+           "VERIF_MAX_WIDE": 4 if quick else 16,
            "VERIF_MAX_SERVE": 160 if quick else 2500,
            "VERIF_RANDOM": 25 if quick else 500,
            "VERIF_STORE_EVERY": 10 if quick else 6}
@@ -85,11 +101,12 @@ def run(ctx):
     served = c.get("blocks_served", 0)
     ctx.cover(traces_validated_against_impl=int(served + c.get("layouts_equal_to_model", 0)))
     # vacuity: the calls the property is about were really made, with present and absent objects
-    need = {"layouts_equal_to_model": len(cases) if not c.get("layout_mismatch") else 1,
+    need = {"layouts_equal_to_model": len(cases) + (4 if quick else 16) if not c.get("layout_mismatch") else 1,
             "blocks_served": 100 if quick else min(n_prod, 2000), "getall_blobs_checked": 100, "getall_absent_ns": 100,
             "get_present": 100, "get_absent": 100, "getproof_rows_verified": 100,
             "included_calls": 100, "commitmentproof_calls": 100, "blocks_served_via_store": 5,
-            "random_blocks": 10}
+            "random_blocks": 10, "wide_blocks": 4 if quick else 16,
+            "served_inrow_padding_then_two_starts": 4 if quick else 16}
     missing = {k: (c.get(k, 0), v) for k, v in need.items() if c.get(k, 0) < v}
     if missing and rep is not None and not rep.get("inconclusive"):
         ctx.inconclusive("vacuity: driver counters below the required minimum (have, need): %s" % missing)
